@@ -181,9 +181,14 @@ func coalesceGlobals(printf printFn, dest, src map[string]interface{}, prefix st
 	dest[GlobalKey] = dg
 }
 
+// copyMap copies src, including the tables nested in it: the copy is merged
+// into in place, which must not reach the tables of the chart it came from.
 func copyMap(src map[string]interface{}) map[string]interface{} {
 	m := make(map[string]interface{}, len(src))
 	for k, v := range src {
+		if t, ok := v.(map[string]interface{}); ok {
+			v = copyMap(t)
+		}
 		m[k] = v
 	}
 	return m
